@@ -159,6 +159,8 @@ struct Sys {
     fund: i64,
     /// a library getter trapped outside a host-protected call: the run ends after the current event
     broken: std::cell::Cell<bool>,
+    /// set-up regime: the forwarder holds a long-lived allowance over its own balance in every token
+    selfal: bool,
 }
 
 /// Model numbers at and beyond +-TOP stand for the ends of the i128 range: -TOP + k = i128::MIN + k, TOP - k = i128::MAX - k
@@ -187,7 +189,7 @@ fn small(v: i128) -> Value {
 }
 
 impl Sys {
-    fn new(flavour: &str, strategy: &str, fund: i64) -> Sys {
+    fn new(flavour: &str, strategy: &str, fund: i64, selfal: bool) -> Sys {
         let e = new_env(&LedgerCfg { seq: NOW0, min_temp: 16, min_persistent: 1_000_000, max_ttl: 6_000_000 });
         let mut names = Names::new(&e, &["u", "r", "q", "m", "ad"]);
         let (fw, fl, eager) = match flavour {
@@ -208,12 +210,20 @@ impl Sys {
             for who in ["u", "fw"] {
                 token::FeeTokenClient::new(&e, &a).mint(&names.get(who), &(fund as i128));
             }
+            if selfal {
+                // set-up, not judged: in its own frame the forwarder is the invoker, so the token takes its approval
+                // (on a network: a forwarded call whose target is the token's `approve`)
+                let (e2, fw2, a2) = (e.clone(), fw.clone(), a.clone());
+                e2.as_contract(&fw2, || {
+                    token::FeeTokenClient::new(&e2, &a2).approve(&fw2, &fw2, &1_000_000i128, &(NOW0 + 1_000_000));
+                });
+            }
         }
         for t in TGTS {
             let a = e.register(target::Target, ());
             names.insert(t, a);
         }
-        Sys { e, names, fw, fl, flavour: flavour.to_string(), eager, fund, broken: std::cell::Cell::new(false) }
+        Sys { e, names, fw, fl, flavour: flavour.to_string(), eager, fund, broken: std::cell::Cell::new(false), selfal }
     }
 
     fn strategy(&self) -> &'static str {
@@ -366,7 +376,14 @@ impl Sys {
             );
             auths.push((rel.clone(), root));
         }
-        set_auths(e, &auths);
+        if diff == "forged" && user == self.fw {
+            // A contract that is no custom account cannot authorize anything it does not invoke itself; the test host,
+            // however, can be told to wave every authorization through (the repository's own tests do). Whatever
+            // succeeds in the forwarder's name under that regime succeeds without the user's authorization.
+            e.mock_all_auths_allowing_non_root_auth();
+        } else {
+            set_auths(e, &auths);
+        }
         match self.fl {
             Flavour::Permissionless => {
                 let rr = pl::FeeForwarderClient::new(e, &self.fw)
@@ -433,7 +450,7 @@ impl Sys {
 
     fn reset_event(&self) -> Value {
         json!({"op": {"op": "reset", "flavour": self.flavour, "strategy": self.strategy(), "fund": self.fund,
-                      "exec": ["r"], "mgr": ["m"],
+                      "exec": ["r"], "mgr": ["m"], "selfal": self.selfal,
                       "dt": 0, "tok": "none", "fee": 0, "max": 0, "de": 0, "user": "none", "rel": "none",
                       "rauth": false, "diff": "none", "tfn": "none", "tfail": false, "x": 0, "tgt": "none",
                       "oper": "none", "oauth": false},
@@ -449,7 +466,8 @@ fn main() {
                 let flavour = b.cfg.get("flavour").and_then(|v| v.as_str()).unwrap_or("permissioned").to_string();
                 let strategy = b.cfg.get("strategy").and_then(|v| v.as_str()).unwrap_or("Lazy").to_string();
                 let fund = b.cfg.get("fund").and_then(|v| v.as_i64()).unwrap_or(3);
-                let mut sys = Sys::new(&flavour, &strategy, fund);
+                let selfal = b.cfg.get("selfal").and_then(|v| v.as_bool()).unwrap_or(false);
+                let mut sys = Sys::new(&flavour, &strategy, fund, selfal);
                 t.reset(sys.reset_event());
                 for op in &b.ops {
                     let ev = sys.step(op);
@@ -469,7 +487,7 @@ fn main() {
             for run in 0..runs {
                 let (fl, st) = combos[run % combos.len()];
                 let fund = *pick(&mut r, &[4i64, 30, 1000]);
-                let mut sys = Sys::new(fl, st, fund);
+                let mut sys = Sys::new(fl, st, fund, (run / combos.len()) % 2 == 1);
                 t.reset(sys.reset_event());
                 let mut last = sys.obs();
                 for _ in 0..len {
@@ -491,7 +509,7 @@ fn main() {
                             let listed: Vec<&str> = TOKS.iter().copied()
                                 .filter(|t| last["list"]["allowed"][*t].as_bool().unwrap_or(false)).collect();
                             let tok = if !listed.is_empty() && r.gen_bool(0.85) { *pick(&mut r, &listed) } else { *pick(&mut r, &TOKS) };
-                            let user = match r.gen_range(0..20) { 0 => "fw", 1 => "r", _ => "u" };
+                            let user = match r.gen_range(0..20) { 0 | 2 => "fw", 1 => "r", _ => "u" };
                             let ub = last["bal"][tok][user].as_i64().unwrap_or(0);
                             let pre = last["al"][tok][user]["amt"].as_i64().unwrap_or(0);
                             // max around the pre-existing allowance (below / at / above), the boundary
@@ -528,7 +546,7 @@ fn main() {
                             op["de"] = json!(de);
                             op["rel"] = json!(rel);
                             op["rauth"] = json!(good || r.gen_bool(0.6));
-                            op["diff"] = json!(if good { "none" } else { *pick(&mut r, &diffs) });
+                            op["diff"] = json!(if user == "fw" && r.gen_bool(0.7) { "forged" } else if good { "none" } else { *pick(&mut r, &diffs) });
                             op["tfn"] = json!(if r.gen_bool(0.3) { "hit_auth" } else { "hit" });
                             op["tfail"] = json!(r.gen_bool(0.08));
                             op["x"] = json!(r.gen_range(0..5));
